@@ -390,8 +390,12 @@ def validate_trace(module, trace_path, constants, name, shards=8, timeout=1800, 
 
     def one(job):
         k, d, tp, cnt = job
-        return job, run_tlc(module, cfg_text, d, workers=1, env={"TRACE": tp}, timeout=timeout,
-                            xmx=xmx, deque=True, coverage=True, seed_arg=False)
+        # no -coverage here: TLC's coverage instrumentation slows these constant-heavy specs down by
+        # an order of magnitude; the number of Step transitions is the number of distinct states - 1
+        res = run_tlc(module, cfg_text, d, workers=1, env={"TRACE": tp}, timeout=timeout,
+                      xmx=xmx, deque=True, coverage=False, seed_arg=False)
+        res.actions = {"Step": (max(0, res.distinct - 1), max(0, res.generated - 1))}
+        return job, res
 
     with ThreadPoolExecutor(max_workers=min(len(jobs), NCPU)) as ex:
         results = list(ex.map(one, jobs))
